@@ -1,14 +1,16 @@
 """import_seed.py <PROP> <a|b> "<needs>" "<what I ran>"  - copies /tmp/seed-<PROP>/<v>/ into /verif/seeded/<prop>-<v>/"""
 import json, os, shutil, sys
 P, V, needs, ran = sys.argv[1:5]
-src = "/tmp/seed-%s/%s" % (P, V)
-dst = "/verif/seeded/%s-%s" % (P.lower(), V)
+root = os.environ.get("SEEDROOT", "/tmp/seed")
+src = "%s-%s/%s" % (root, P, V)
+name = os.environ.get("SEEDNAME", V)          # round 2: a -> c, b -> d
+dst = "/verif/seeded/%s-%s" % (P.lower(), name)
 os.makedirs(dst, exist_ok=True)
 for f in ("patch.diff", "demo.py", "notes.md"):
     if os.path.exists(os.path.join(src, f)):
         shutil.copy(os.path.join(src, f), os.path.join(dst, f))
 files = sorted({l.split(" b/")[1].strip() for l in open(os.path.join(dst, "patch.diff")) if l.startswith("diff --git")})
-json.dump({"property": P, "id": "%s-%s" % (P.lower(), V), "files_changed": files, "needs_to_manifest": needs,
+json.dump({"property": P, "id": "%s-%s" % (P.lower(), name), "files_changed": files, "needs_to_manifest": needs,
            "confirmed_by": ran, "origin": "independent sub-agent given only the property text and a scratch worktree"},
           open(os.path.join(dst, "meta.json"), "w"), indent=1)
 print(dst, files)
